@@ -66,12 +66,17 @@ impl From<&Ipv6Packet> for Vec<u8> {
     fn from(ipv6: &Ipv6Packet) -> Self {
         let header = ipv6.header.borrow().clone();
         let mut bytes: Vec<u8> = (&header).into();
-        if let Some(inner) = ipv6.inner.borrow().clone() {
-            let data: Vec<u8> = inner.as_ref().into();
-            bytes.extend_from_slice(&data);
-        } else {
-            let data = ipv6.rawdata.borrow().clone();
-            bytes.extend_from_slice(&data[ipv6.offset..]);
+        // An inner layer that failed to parse (error object) has no bytes of
+        // its own: the captured bytes are written as they are
+        match ipv6.inner.borrow().clone() {
+            Some(inner) if !inner.is_error() => {
+                let data: Vec<u8> = inner.as_ref().into();
+                bytes.extend_from_slice(&data);
+            }
+            _ => {
+                let data = ipv6.rawdata.borrow().clone();
+                bytes.extend_from_slice(&data[ipv6.offset..]);
+            }
         }
         bytes
     }
